@@ -10,4 +10,8 @@ cp /repo/go.sum engine/go.sum
 ./tools/gencopies.sh
 (cd engine && go build -o "$WORK/bin/vmc" ./cmd/vmc)
 (cd /repo && go build -o "$WORK/bin/" ./cmd/...)
-echo "setup ok: $($WORK/bin/vmc list | tr '\n' ' ')"
+(cd engine && go build -o "$WORK/bin/vinstr" ./cmd/vinstr)
+"$WORK/bin/vinstr" /repo "$WORK/instr"
+(cd engine && go build -tags instr -overlay "$WORK/instr/overlay.json" -o "$WORK/bin/vmc-instr" ./cmd/vmc)
+(cd engine && go build -race -tags instr -overlay "$WORK/instr/overlay.json" -o "$WORK/bin/vmc-race" ./cmd/vmc)
+echo "setup ok: $($WORK/bin/vmc-instr list | tr '\n' ' ')"
